@@ -3,10 +3,14 @@
 //! `DoubleEndedIterator` and `ExactSizeIterator` (`nth`, `nth_back`, `skip`, `step_by`, `take`, `rev`,
 //! `last`, `count`, `len`, `size_hint`, `fold`, `zip`, `chain`, `peekable`, `enumerate`, mixed
 //! front/back consumption …), each of which the crate's iterators may override.  A random program of
-//! such calls (≤ 12 ops, ≤ 2 nested consuming adaptors, each applied to the CONCRETE crate type so that
-//! std forwards to the crate's own methods — `map`/`Box<dyn>` would hide `nth`, `count`, `fold` …) is
-//! run on the crate's iterator and on `Vec::into_iter()` over the documented points, which has the std
-//! semantics by definition.  Every yielded value / `None` / length must agree (values bit for bit).
+//! such calls (≤ 12 ops, ≤ 2 nested consuming adaptors) is run on the crate's iterator and on
+//! `Vec::into_iter()` over the documented points, which has the std semantics by definition.  Every
+//! yielded value / `None` / length must agree (values bit for bit, or within 1e-14 of the axis' scale).
+//! Plain `map` / `Box<dyn Iterator>` would hide the crate's `nth`, `count`, `last`, `fold` … (they do not
+//! forward them), so every source is erased into ONE iterator type `Dyn` whose trait object forwards
+//! EVERY overridable method to the wrapped iterator's own method; std's adaptors and the interpreter are
+//! instantiated on `Dyn` only (an interpreter generic over the concrete adaptor types cost ≈ 400
+//! instantiations and two minutes of compile time).
 //!
 //! Sources: `Steps(..).into_iter()`, `Steps2D(..).into_iter()`, `Iterator2D::new`, the five
 //! `into_signal_idler_iterator()` routes (forward-only: `impl Iterator`), `a.chain(b)` / `a.zip(b)` of two
@@ -73,17 +77,45 @@ fn after(c: &mut usize, m: usize) -> bool {
 const TOO_BIG: usize = 1 << 24;
 
 // ------------------------------------------------------------------------------------------------
-// a transparent guard around the crate's iterators
+// a transparent, type-erasing guard around the iterators
 
-/// Forwards EVERY overridable method to the wrapped iterator's own method (so std's adaptors and the
-/// terminal calls still reach the crate's `nth`, `nth_back`, `count`, `last`, `fold`, `len` …) and counts
-/// the delivered items: no program over a range of n points can be handed more than n of them, so an
-/// iterator that keeps delivering (a cursor that stopped moving) ends in a panic — the outcome of the op
-/// in progress — instead of an unbounded `collect`.
-pub struct Meter<I> {
-  it: I,
-  left: std::rc::Rc<std::cell::Cell<usize>>,
+/// the uniform item of the erased layer: the printable, bit-faithful key of the real item
+pub type Val = String;
+impl Keyed for String {
+  fn key(&self) -> String {
+    self.clone()
+  }
 }
+
+/// Object-safe mirror of every OVERRIDABLE method of `Iterator` / `DoubleEndedIterator` /
+/// `ExactSizeIterator`.  It is implemented once, generically, by forwarding each method to the wrapped
+/// iterator's OWN method (so the crate's `nth`, `nth_back`, `count`, `last`, `fold`, `len` … are what
+/// runs), and `Dyn` below forwards each method of its own `Iterator` impl to the trait object: std's
+/// adaptors (`skip`, `step_by`, `take`, `rev`, `peekable`, `chain`, `zip` …) and the interpreter are then
+/// instantiated on the ONE type `Dyn` only, whatever the crate type underneath.
+/// The wrappers also count the delivered items: no program over a range of n points can be handed more
+/// than n of them, so an iterator that keeps delivering (a cursor that stopped moving) ends in a panic —
+/// the outcome of the op in progress — instead of an unbounded `collect`.
+pub trait DynIt {
+  fn d_next(&mut self) -> Option<Val>;
+  fn d_next_back(&mut self) -> Option<Val>;
+  fn d_nth(&mut self, n: usize) -> Option<Val>;
+  fn d_nth_back(&mut self, n: usize) -> Option<Val>;
+  fn d_size_hint(&self) -> (usize, Option<usize>);
+  fn d_len(&self) -> usize;
+  fn d_count(self: Box<Self>) -> usize;
+  fn d_last(self: Box<Self>) -> Option<Val>;
+  fn d_fold(self: Box<Self>, f: &mut dyn FnMut(Val));
+  fn d_rfold(self: Box<Self>, f: &mut dyn FnMut(Val));
+  fn d_for_each(self: Box<Self>, f: &mut dyn FnMut(Val));
+  fn d_find(&mut self, p: &mut dyn FnMut(&Val) -> bool) -> Option<Val>;
+  fn d_rfind(&mut self, p: &mut dyn FnMut(&Val) -> bool) -> Option<Val>;
+  fn d_position(&mut self, p: &mut dyn FnMut(Val) -> bool) -> Option<usize>;
+  fn d_any(&mut self, p: &mut dyn FnMut(Val) -> bool) -> bool;
+  fn d_max_by(self: Box<Self>, f: &mut dyn FnMut(&Val, &Val) -> std::cmp::Ordering) -> Option<Val>;
+  fn d_min_by(self: Box<Self>, f: &mut dyn FnMut(&Val, &Val) -> std::cmp::Ordering) -> Option<Val>;
+}
+
 fn tick(left: &std::cell::Cell<usize>) {
   let l = left.get();
   if l == 0 {
@@ -91,119 +123,253 @@ fn tick(left: &std::cell::Cell<usize>) {
   }
   left.set(l - 1);
 }
-impl<I> Meter<I> {
-  pub fn new(it: I, points: usize) -> Self {
-    Meter { it, left: std::rc::Rc::new(std::cell::Cell::new(points + 16)) }
+fn told<T: Keyed>(left: &std::cell::Cell<usize>, v: Option<T>) -> Option<Val> {
+  v.map(|x| {
+    tick(left);
+    x.key()
+  })
+}
+
+macro_rules! gate {
+  (yes, $a:block, $b:block) => {
+    $a
+  };
+  (no, $a:block, $b:block) => {
+    $b
+  };
+}
+
+/// the three capability levels of a source: double-ended + exact-size (the grid iterators), double-ended
+/// only (`chain`), forward only (`impl Iterator` of the signal/idler routes).  A method the source does
+/// not have falls back to its forward counterpart (the interpreter does not call it: see `Cap`).
+macro_rules! wrapper {
+  ($name:ident, ($($bound:tt)+), dei = $dei:tt, esi = $esi:tt) => {
+    pub struct $name<I> {
+      it: I,
+      left: std::cell::Cell<usize>,
+    }
+    impl<I> DynIt for $name<I>
+    where
+      I: $($bound)+,
+      I::Item: Keyed,
+    {
+      fn d_next(&mut self) -> Option<Val> {
+        let v = self.it.next();
+        told(&self.left, v)
+      }
+      fn d_next_back(&mut self) -> Option<Val> {
+        let v = gate!($dei, { self.it.next_back() }, { self.it.next() });
+        told(&self.left, v)
+      }
+      fn d_nth(&mut self, n: usize) -> Option<Val> {
+        let v = self.it.nth(n);
+        told(&self.left, v)
+      }
+      fn d_nth_back(&mut self, n: usize) -> Option<Val> {
+        let v = gate!($dei, { self.it.nth_back(n) }, { self.it.nth(n) });
+        told(&self.left, v)
+      }
+      fn d_size_hint(&self) -> (usize, Option<usize>) {
+        self.it.size_hint()
+      }
+      fn d_len(&self) -> usize {
+        gate!($esi, { self.it.len() }, { self.it.size_hint().0 })
+      }
+      fn d_count(self: Box<Self>) -> usize {
+        self.it.count()
+      }
+      fn d_last(self: Box<Self>) -> Option<Val> {
+        self.it.last().map(|x| x.key())
+      }
+      fn d_fold(self: Box<Self>, f: &mut dyn FnMut(Val)) {
+        let me = *self;
+        let left = me.left;
+        me.it.fold((), |(), x| {
+          tick(&left);
+          f(x.key())
+        })
+      }
+      fn d_rfold(self: Box<Self>, f: &mut dyn FnMut(Val)) {
+        let me = *self;
+        let left = me.left;
+        gate!(
+          $dei,
+          {
+            me.it.rfold((), |(), x| {
+              tick(&left);
+              f(x.key())
+            })
+          },
+          {
+            me.it.fold((), |(), x| {
+              tick(&left);
+              f(x.key())
+            })
+          }
+        )
+      }
+      fn d_for_each(self: Box<Self>, f: &mut dyn FnMut(Val)) {
+        let me = *self;
+        let left = me.left;
+        me.it.for_each(|x| {
+          tick(&left);
+          f(x.key())
+        })
+      }
+      fn d_find(&mut self, p: &mut dyn FnMut(&Val) -> bool) -> Option<Val> {
+        let left = &self.left;
+        self
+          .it
+          .find(|x| {
+            tick(left);
+            p(&x.key())
+          })
+          .map(|x| x.key())
+      }
+      fn d_rfind(&mut self, p: &mut dyn FnMut(&Val) -> bool) -> Option<Val> {
+        let left = &self.left;
+        let mut q = |x: &I::Item| {
+          tick(left);
+          p(&x.key())
+        };
+        gate!($dei, { self.it.rfind(&mut q) }, { self.it.find(&mut q) }).map(|x| x.key())
+      }
+      fn d_position(&mut self, p: &mut dyn FnMut(Val) -> bool) -> Option<usize> {
+        let left = &self.left;
+        self.it.position(|x| {
+          tick(left);
+          p(x.key())
+        })
+      }
+      fn d_any(&mut self, p: &mut dyn FnMut(Val) -> bool) -> bool {
+        let left = &self.left;
+        self.it.any(|x| {
+          tick(left);
+          p(x.key())
+        })
+      }
+      fn d_max_by(self: Box<Self>, f: &mut dyn FnMut(&Val, &Val) -> std::cmp::Ordering) -> Option<Val> {
+        let me = *self;
+        let left = me.left;
+        me.it
+          .max_by(|a, b| {
+            tick(&left);
+            f(&a.key(), &b.key())
+          })
+          .map(|x| x.key())
+      }
+      fn d_min_by(self: Box<Self>, f: &mut dyn FnMut(&Val, &Val) -> std::cmp::Ordering) -> Option<Val> {
+        let me = *self;
+        let left = me.left;
+        me.it
+          .min_by(|a, b| {
+            tick(&left);
+            f(&a.key(), &b.key())
+          })
+          .map(|x| x.key())
+      }
+    }
+  };
+}
+wrapper!(Full, (DoubleEndedIterator + ExactSizeIterator), dei = yes, esi = yes);
+wrapper!(DeiOnly, (DoubleEndedIterator), dei = yes, esi = no);
+wrapper!(FwdOnly, (Iterator), dei = no, esi = no);
+
+/// no bound on the delivered items (the reference; adaptors over an already guarded `Dyn`)
+const UNMETERED: usize = usize::MAX / 2;
+
+/// THE iterator type of the interpreter
+pub struct Dyn(Box<dyn DynIt>);
+impl Dyn {
+  /// a source with `points` points (guarded: at most points + 16 items are accepted from it)
+  pub fn full<I>(it: I, points: usize) -> Dyn
+  where
+    I: DoubleEndedIterator + ExactSizeIterator + 'static,
+    I::Item: Keyed,
+  {
+    Dyn(Box::new(Full { it, left: std::cell::Cell::new(points.saturating_add(16)) }))
+  }
+  pub fn dei<I>(it: I, points: usize) -> Dyn
+  where
+    I: DoubleEndedIterator + 'static,
+    I::Item: Keyed,
+  {
+    Dyn(Box::new(DeiOnly { it, left: std::cell::Cell::new(points.saturating_add(16)) }))
+  }
+  pub fn fwd<I>(it: I, points: usize) -> Dyn
+  where
+    I: Iterator + 'static,
+    I::Item: Keyed,
+  {
+    Dyn(Box::new(FwdOnly { it, left: std::cell::Cell::new(points.saturating_add(16)) }))
   }
 }
-impl<I: Iterator> Iterator for Meter<I> {
-  type Item = I::Item;
-  fn next(&mut self) -> Option<I::Item> {
-    let v = self.it.next();
-    if v.is_some() {
-      tick(&self.left);
-    }
-    v
+impl Iterator for Dyn {
+  type Item = Val;
+  fn next(&mut self) -> Option<Val> {
+    self.0.d_next()
   }
   fn size_hint(&self) -> (usize, Option<usize>) {
-    self.it.size_hint()
+    self.0.d_size_hint()
   }
   fn count(self) -> usize {
-    self.it.count()
+    self.0.d_count()
   }
-  fn last(self) -> Option<I::Item> {
-    self.it.last()
+  fn last(self) -> Option<Val> {
+    self.0.d_last()
   }
-  fn nth(&mut self, n: usize) -> Option<I::Item> {
-    let v = self.it.nth(n);
-    if v.is_some() {
-      tick(&self.left);
-    }
-    v
+  fn nth(&mut self, n: usize) -> Option<Val> {
+    self.0.d_nth(n)
   }
-  fn fold<B, F: FnMut(B, I::Item) -> B>(self, init: B, mut f: F) -> B {
-    let left = self.left;
-    self.it.fold(init, move |b, x| {
-      tick(&left);
-      f(b, x)
-    })
+  fn fold<B, F: FnMut(B, Val) -> B>(self, init: B, mut f: F) -> B {
+    let mut acc = Some(init);
+    self.0.d_fold(&mut |x| {
+      let a = acc.take().expect("accumulator");
+      acc = Some(f(a, x));
+    });
+    acc.expect("accumulator")
   }
-  fn for_each<F: FnMut(I::Item)>(self, mut f: F) {
-    let left = self.left;
-    self.it.for_each(move |x| {
-      tick(&left);
-      f(x)
-    })
+  fn for_each<F: FnMut(Val)>(self, mut f: F) {
+    self.0.d_for_each(&mut f)
   }
-  fn find<P: FnMut(&I::Item) -> bool>(&mut self, mut p: P) -> Option<I::Item> {
-    let left = self.left.clone();
-    self.it.find(move |x| {
-      tick(&left);
-      p(x)
-    })
+  fn find<P: FnMut(&Val) -> bool>(&mut self, mut p: P) -> Option<Val> {
+    self.0.d_find(&mut p)
   }
-  fn position<P: FnMut(I::Item) -> bool>(&mut self, mut p: P) -> Option<usize> {
-    let left = self.left.clone();
-    self.it.position(move |x| {
-      tick(&left);
-      p(x)
-    })
+  fn position<P: FnMut(Val) -> bool>(&mut self, mut p: P) -> Option<usize> {
+    self.0.d_position(&mut p)
   }
-  fn any<P: FnMut(I::Item) -> bool>(&mut self, mut p: P) -> bool {
-    let left = self.left.clone();
-    self.it.any(move |x| {
-      tick(&left);
-      p(x)
-    })
+  fn any<P: FnMut(Val) -> bool>(&mut self, mut p: P) -> bool {
+    self.0.d_any(&mut p)
   }
-  fn max_by<F: FnMut(&I::Item, &I::Item) -> std::cmp::Ordering>(self, mut f: F) -> Option<I::Item> {
-    let left = self.left;
-    self.it.max_by(move |a, b| {
-      tick(&left);
-      f(a, b)
-    })
+  fn max_by<F: FnMut(&Val, &Val) -> std::cmp::Ordering>(self, mut f: F) -> Option<Val> {
+    self.0.d_max_by(&mut f)
   }
-  fn min_by<F: FnMut(&I::Item, &I::Item) -> std::cmp::Ordering>(self, mut f: F) -> Option<I::Item> {
-    let left = self.left;
-    self.it.min_by(move |a, b| {
-      tick(&left);
-      f(a, b)
-    })
+  fn min_by<F: FnMut(&Val, &Val) -> std::cmp::Ordering>(self, mut f: F) -> Option<Val> {
+    self.0.d_min_by(&mut f)
   }
 }
-impl<I: DoubleEndedIterator> DoubleEndedIterator for Meter<I> {
-  fn next_back(&mut self) -> Option<I::Item> {
-    let v = self.it.next_back();
-    if v.is_some() {
-      tick(&self.left);
-    }
-    v
+impl DoubleEndedIterator for Dyn {
+  fn next_back(&mut self) -> Option<Val> {
+    self.0.d_next_back()
   }
-  fn nth_back(&mut self, n: usize) -> Option<I::Item> {
-    let v = self.it.nth_back(n);
-    if v.is_some() {
-      tick(&self.left);
-    }
-    v
+  fn nth_back(&mut self, n: usize) -> Option<Val> {
+    self.0.d_nth_back(n)
   }
-  fn rfold<B, F: FnMut(B, I::Item) -> B>(self, init: B, mut f: F) -> B {
-    let left = self.left;
-    self.it.rfold(init, move |b, x| {
-      tick(&left);
-      f(b, x)
-    })
+  fn rfold<B, F: FnMut(B, Val) -> B>(self, init: B, mut f: F) -> B {
+    let mut acc = Some(init);
+    self.0.d_rfold(&mut |x| {
+      let a = acc.take().expect("accumulator");
+      acc = Some(f(a, x));
+    });
+    acc.expect("accumulator")
   }
-  fn rfind<P: FnMut(&I::Item) -> bool>(&mut self, mut p: P) -> Option<I::Item> {
-    let left = self.left.clone();
-    self.it.rfind(move |x| {
-      tick(&left);
-      p(x)
-    })
+  fn rfind<P: FnMut(&Val) -> bool>(&mut self, mut p: P) -> Option<Val> {
+    self.0.d_rfind(&mut p)
   }
 }
-impl<I: ExactSizeIterator> ExactSizeIterator for Meter<I> {
+impl ExactSizeIterator for Dyn {
   fn len(&self) -> usize {
-    self.it.len()
+    self.0.d_len()
   }
 }
 
@@ -292,12 +458,6 @@ impl Op {
     let s = format!("{:?}", self);
     s.split('(').next().unwrap_or("op").to_lowercase()
   }
-  fn is_adaptor(&self) -> bool {
-    matches!(self, Op::Skip(_) | Op::StepBy(_) | Op::Take(_) | Op::Rev | Op::Peekable | Op::Enumerate | Op::Zip(_) | Op::Fuse)
-  }
-  fn is_terminal(&self) -> bool {
-    matches!(self, Op::Count | Op::Last | Op::Collect | Op::RevCollect | Op::Fold | Op::RFold | Op::ForEach | Op::MaxBy | Op::MinBy)
-  }
   fn is_primitive(&self) -> bool {
     matches!(self, Op::Next | Op::NextBack | Op::Nth(_) | Op::NthBack(_) | Op::Len)
   }
@@ -307,282 +467,181 @@ pub fn show_prog(p: &[Op]) -> String {
   p.iter().map(|o| o.show()).collect::<Vec<_>>().join(",")
 }
 
-/// nesting depth of concrete adaptor types still available; `L0` ends the recursion of instantiations
-/// (programs are generated with at most two consuming adaptors, so its methods are never reached at run time)
-pub trait Lvl {
-  fn full<I>(it: I, prog: &[Op], out: &mut Vec<String>)
-  where
-    I: DoubleEndedIterator + ExactSizeIterator,
-    I::Item: Keyed;
-  fn dei<I>(it: I, prog: &[Op], out: &mut Vec<String>)
-  where
-    I: DoubleEndedIterator,
-    I::Item: Keyed;
-  fn fwd<I>(it: I, prog: &[Op], out: &mut Vec<String>)
-  where
-    I: Iterator,
-    I::Item: Keyed;
-}
-pub struct L2;
-pub struct L1;
-pub struct L0;
-macro_rules! lvl {
-  ($t:ty, $next:ty) => {
-    impl Lvl for $t {
-      fn full<I>(it: I, prog: &[Op], out: &mut Vec<String>)
-      where
-        I: DoubleEndedIterator + ExactSizeIterator,
-        I::Item: Keyed,
-      {
-        exec_full::<I, $next>(it, prog, out)
-      }
-      fn dei<I>(it: I, prog: &[Op], out: &mut Vec<String>)
-      where
-        I: DoubleEndedIterator,
-        I::Item: Keyed,
-      {
-        exec_dei::<I, $next>(it, prog, out)
-      }
-      fn fwd<I>(it: I, prog: &[Op], out: &mut Vec<String>)
-      where
-        I: Iterator,
-        I::Item: Keyed,
-      {
-        exec_fwd::<I, $next>(it, prog, out)
-      }
-    }
-  };
-}
-lvl!(L2, L1);
-lvl!(L1, L0);
-impl Lvl for L0 {
-  fn full<I>(_it: I, _prog: &[Op], out: &mut Vec<String>)
-  where
-    I: DoubleEndedIterator + ExactSizeIterator,
-    I::Item: Keyed,
-  {
-    out.push("depth-limit".into());
-  }
-  fn dei<I>(_it: I, _prog: &[Op], out: &mut Vec<String>)
-  where
-    I: DoubleEndedIterator,
-    I::Item: Keyed,
-  {
-    out.push("depth-limit".into());
-  }
-  fn fwd<I>(_it: I, _prog: &[Op], out: &mut Vec<String>)
-  where
-    I: Iterator,
-    I::Item: Keyed,
-  {
-    out.push("depth-limit".into());
-  }
+/// what the source under the erased layer can do; an op beyond it runs as its forward counterpart —
+/// identically for the crate's iterator and for the reference
+#[derive(Clone, Copy, PartialEq, Debug)]
+pub enum Cap {
+  Full,
+  Dei,
+  Fwd,
 }
 
-macro_rules! gate {
-  (yes, $a:block, $b:block) => {
-    $a
-  };
-  (no, $a:block, $b:block) => {
-    $b
-  };
-}
-
-/// One interpreter, three capability levels.  An op the capability does not have falls back to its
-/// forward counterpart — identically for the crate's iterator and for the reference.
-macro_rules! make_exec {
-  ($name:ident, ($($bound:tt)+), dei = $dei:tt, esi = $esi:tt, sized_adaptors = $sk:ident, plain_adaptors = $rv:ident) => {
-    pub fn $name<I, L: Lvl>(mut it: I, prog: &[Op], out: &mut Vec<String>)
-    where
-      I: $($bound)+,
-      I::Item: Keyed,
-    {
-      for (i, op) in prog.iter().enumerate() {
-        let rest = &prog[i + 1..];
-        match *op {
-          Op::Next => out.push(opt(it.next())),
-          Op::NextBack => gate!($dei, { out.push(opt(it.next_back())) }, { out.push(opt(it.next())) }),
-          Op::Nth(k) => out.push(opt(it.nth(k))),
-          Op::NthBack(k) => gate!($dei, { out.push(opt(it.nth_back(k))) }, { out.push(opt(it.nth(k))) }),
-          Op::Len => gate!($esi, { out.push(format!("len={}", it.len())) }, { out.push(hint(it.size_hint())) }),
-          Op::Hint => out.push(hint(it.size_hint())),
-          Op::RefTake(k) => {
-            let v: Vec<I::Item> = it.by_ref().take(k).collect();
-            out.push(list(&v));
-          }
-          Op::RefTakeRev(k) => gate!(
-            $esi,
-            {
-              let v: Vec<I::Item> = it.by_ref().take(k).rev().collect();
-              out.push(list(&v));
-            },
-            {
-              let v: Vec<I::Item> = it.by_ref().take(k).collect();
-              out.push(list(&v));
-            }
-          ),
-          Op::RefSkipNext(k) => out.push(opt(it.by_ref().skip(k).next())),
-          Op::RefSkipBack(k) => gate!($esi, { out.push(opt(it.by_ref().skip(k).next_back())) }, { out.push(opt(it.by_ref().skip(k).next())) }),
-          Op::RefStep(s, m) => {
-            let v: Vec<I::Item> = it.by_ref().step_by(s.max(1)).take(m).collect();
-            out.push(list(&v));
-          }
-          Op::RefStepBack(s, m) => gate!(
-            $esi,
-            {
-              let v: Vec<I::Item> = it.by_ref().step_by(s.max(1)).rev().take(m).collect();
-              out.push(list(&v));
-            },
-            {
-              let v: Vec<I::Item> = it.by_ref().step_by(s.max(1)).take(m).collect();
-              out.push(list(&v));
-            }
-          ),
-          Op::RefRevNth(k) => gate!($dei, { out.push(opt(it.by_ref().rev().nth(k))) }, { out.push(opt(it.by_ref().nth(k))) }),
-          Op::RefRevSkip(k) => gate!($esi, { out.push(opt(it.by_ref().rev().skip(k).next())) }, { out.push(opt(it.by_ref().skip(k).next())) }),
-          Op::RefEnumBack => gate!($esi, { out.push(opt(it.by_ref().enumerate().next_back())) }, { out.push(opt(it.by_ref().enumerate().next())) }),
-          Op::RefZipBack(m) => gate!($esi, { out.push(opt(it.by_ref().zip(0..m).next_back())) }, { out.push(opt(it.by_ref().zip(0..m).next())) }),
-          Op::RefPeek => {
-            let mut p = it.by_ref().peekable();
-            let a = match p.peek() {
-              Some(x) => x.key(),
-              None => "None".into(),
-            };
-            let b = gate!($dei, { opt(p.next_back()) }, { opt(p.next()) });
-            let c = opt(p.nth(0));
-            out.push(format!("peek({};{};{})", a, b, c));
-          }
-          Op::Find(m) => {
-            let mut c = 0usize;
-            out.push(opt(it.find(|_| after(&mut c, m))));
-          }
-          Op::RFind(m) => {
-            let mut c = 0usize;
-            gate!($dei, { out.push(opt(it.rfind(|_| after(&mut c, m)))) }, { out.push(opt(it.find(|_| after(&mut c, m)))) })
-          }
-          Op::Position(m) => {
-            let mut c = 0usize;
-            out.push(opt(it.position(|_| after(&mut c, m))));
-          }
-          Op::RPosition(m) => {
-            let mut c = 0usize;
-            gate!($esi, { out.push(opt(it.rposition(|_| after(&mut c, m)))) }, { out.push(opt(it.position(|_| after(&mut c, m)))) })
-          }
-          Op::Any(m) => {
-            let mut c = 0usize;
-            out.push(format!("any={}", it.any(|_| after(&mut c, m))));
-          }
-          // ---- consuming adaptors
-          Op::Skip(k) => {
-            out.push("~".into());
-            return L::$sk(it.skip(k), rest, out);
-          }
-          Op::StepBy(s) => {
-            out.push("~".into());
-            return L::$sk(it.step_by(s.max(1)), rest, out);
-          }
-          Op::Take(k) => {
-            out.push("~".into());
-            return L::$sk(it.take(k), rest, out);
-          }
-          Op::Enumerate => {
-            out.push("~".into());
-            return L::$sk(it.enumerate(), rest, out);
-          }
-          Op::Zip(m) => {
-            out.push("~".into());
-            return L::$sk(it.zip(0..m), rest, out);
-          }
-          Op::Peekable => {
-            let mut p = it.peekable();
-            out.push(match p.peek() {
-              Some(x) => x.key(),
-              None => "None".into(),
-            });
-            return L::$rv(p, rest, out);
-          }
-          Op::Fuse => {
-            out.push("~".into());
-            return L::$rv(it.fuse(), rest, out);
-          }
-          Op::Rev => gate!(
-            $dei,
-            {
-              out.push("~".into());
-              return L::$rv(it.rev(), rest, out);
-            },
-            { out.push("~".into()) }
-          ),
-          // ---- terminal calls
-          Op::Count => {
-            out.push(format!("count={}", it.count()));
-            return;
-          }
-          Op::Last => {
-            out.push(opt(it.last()));
-            return;
-          }
-          Op::Collect => {
-            let h = it.size_hint();
-            if h.0 > TOO_BIG {
-              out.push(format!("size_hint-too-big:{}", hint(h)));
-            } else {
-              let v: Vec<I::Item> = it.collect();
-              out.push(list(&v));
-            }
-            return;
-          }
-          Op::RevCollect => {
-            let h = it.size_hint();
-            if h.0 > TOO_BIG {
-              out.push(format!("size_hint-too-big:{}", hint(h)));
-            } else {
-              let v: Vec<I::Item> = gate!($dei, { it.rev().collect() }, { it.collect() });
-              out.push(list(&v));
-            }
-            return;
-          }
-          Op::Fold => {
-            let v = it.fold(Vec::new(), |mut v: Vec<String>, x| {
-              v.push(x.key());
-              v
-            });
-            out.push(format!("fold[{}]", v.join(",")));
-            return;
-          }
-          Op::RFold => {
-            let push = |mut v: Vec<String>, x: I::Item| {
-              v.push(x.key());
-              v
-            };
-            let v = gate!($dei, { it.rfold(Vec::new(), push) }, { it.fold(Vec::new(), push) });
-            out.push(format!("rfold[{}]", v.join(",")));
-            return;
-          }
-          Op::ForEach => {
-            let mut v: Vec<String> = Vec::new();
-            it.for_each(|x| v.push(x.key()));
-            out.push(format!("for_each[{}]", v.join(",")));
-            return;
-          }
-          Op::MaxBy => {
-            // a constant comparison: the result depends on the order of delivery only (the last element)
-            out.push(opt(it.max_by(|_, _| std::cmp::Ordering::Less)));
-            return;
-          }
-          Op::MinBy => {
-            out.push(opt(it.min_by(|_, _| std::cmp::Ordering::Less)));
-            return;
-          }
+/// THE interpreter (one instantiation: every iterator is a `Dyn`; after a consuming adaptor the adapted
+/// iterator — a std adaptor over `Dyn`, whose calls `Dyn` forwards to the crate's own methods — is erased
+/// again)
+pub fn exec(mut it: Dyn, mut cap: Cap, prog: &[Op], out: &mut Vec<String>) {
+  for op in prog.iter() {
+    let dei = cap != Cap::Fwd;
+    let esi = cap == Cap::Full;
+    // capability after an adaptor whose back end needs `len` (skip, step_by, take, enumerate, zip)
+    let sized = if cap == Cap::Full { Cap::Full } else { Cap::Fwd };
+    match *op {
+      Op::Next => out.push(opt(it.next())),
+      Op::NextBack => out.push(opt(if dei { it.next_back() } else { it.next() })),
+      Op::Nth(k) => out.push(opt(it.nth(k))),
+      Op::NthBack(k) => out.push(opt(if dei { it.nth_back(k) } else { it.nth(k) })),
+      Op::Len => out.push(if esi { format!("len={}", it.len()) } else { hint(it.size_hint()) }),
+      Op::Hint => out.push(hint(it.size_hint())),
+      Op::RefTake(k) => {
+        let v: Vec<Val> = it.by_ref().take(k).collect();
+        out.push(list(&v));
+      }
+      Op::RefTakeRev(k) => {
+        let v: Vec<Val> = if esi { it.by_ref().take(k).rev().collect() } else { it.by_ref().take(k).collect() };
+        out.push(list(&v));
+      }
+      Op::RefSkipNext(k) => out.push(opt(it.by_ref().skip(k).next())),
+      Op::RefSkipBack(k) => out.push(opt(if esi { it.by_ref().skip(k).next_back() } else { it.by_ref().skip(k).next() })),
+      Op::RefStep(s, m) => {
+        let v: Vec<Val> = it.by_ref().step_by(s.max(1)).take(m).collect();
+        out.push(list(&v));
+      }
+      Op::RefStepBack(s, m) => {
+        let v: Vec<Val> = if esi { it.by_ref().step_by(s.max(1)).rev().take(m).collect() } else { it.by_ref().step_by(s.max(1)).take(m).collect() };
+        out.push(list(&v));
+      }
+      Op::RefRevNth(k) => out.push(opt(if dei { it.by_ref().rev().nth(k) } else { it.by_ref().nth(k) })),
+      Op::RefRevSkip(k) => out.push(opt(if esi { it.by_ref().rev().skip(k).next() } else { it.by_ref().skip(k).next() })),
+      Op::RefEnumBack => out.push(opt(if esi { it.by_ref().enumerate().next_back() } else { it.by_ref().enumerate().next() })),
+      Op::RefZipBack(m) => out.push(opt(if esi { it.by_ref().zip(0..m).next_back() } else { it.by_ref().zip(0..m).next() })),
+      Op::RefPeek => {
+        let mut p = it.by_ref().peekable();
+        let a = match p.peek() {
+          Some(x) => x.key(),
+          None => "None".into(),
+        };
+        let b = opt(if dei { p.next_back() } else { p.next() });
+        let c = opt(p.nth(0));
+        out.push(format!("peek({};{};{})", a, b, c));
+      }
+      Op::Find(m) => {
+        let mut c = 0usize;
+        out.push(opt(it.find(|_| after(&mut c, m))));
+      }
+      Op::RFind(m) => {
+        let mut c = 0usize;
+        out.push(opt(if dei { it.rfind(|_| after(&mut c, m)) } else { it.find(|_| after(&mut c, m)) }));
+      }
+      Op::Position(m) => {
+        let mut c = 0usize;
+        out.push(opt(it.position(|_| after(&mut c, m))));
+      }
+      Op::RPosition(m) => {
+        let mut c = 0usize;
+        out.push(opt(if esi { it.rposition(|_| after(&mut c, m)) } else { it.position(|_| after(&mut c, m)) }));
+      }
+      Op::Any(m) => {
+        let mut c = 0usize;
+        out.push(format!("any={}", it.any(|_| after(&mut c, m))));
+      }
+      // ---- consuming adaptors: a std adaptor over `Dyn`, erased again
+      Op::Skip(k) => {
+        out.push("~".into());
+        it = Dyn::full(it.skip(k), UNMETERED);
+        cap = sized;
+      }
+      Op::StepBy(s) => {
+        out.push("~".into());
+        it = Dyn::full(it.step_by(s.max(1)), UNMETERED);
+        cap = sized;
+      }
+      Op::Take(k) => {
+        out.push("~".into());
+        it = Dyn::full(it.take(k), UNMETERED);
+        cap = sized;
+      }
+      Op::Enumerate => {
+        out.push("~".into());
+        it = Dyn::full(it.enumerate(), UNMETERED);
+        cap = sized;
+      }
+      Op::Zip(m) => {
+        out.push("~".into());
+        it = Dyn::full(it.zip(0..m), UNMETERED);
+        cap = sized;
+      }
+      Op::Peekable => {
+        let mut p = it.peekable();
+        out.push(match p.peek() {
+          Some(x) => x.key(),
+          None => "None".into(),
+        });
+        it = Dyn::full(p, UNMETERED);
+      }
+      Op::Fuse => {
+        out.push("~".into());
+        it = Dyn::full(it.fuse(), UNMETERED);
+      }
+      Op::Rev => {
+        out.push("~".into());
+        if dei {
+          it = Dyn::full(it.rev(), UNMETERED);
         }
       }
+      // ---- terminal calls
+      Op::Count => {
+        out.push(format!("count={}", it.count()));
+        return;
+      }
+      Op::Last => {
+        out.push(opt(it.last()));
+        return;
+      }
+      Op::Collect | Op::RevCollect => {
+        let h = it.size_hint();
+        if h.0 > TOO_BIG {
+          out.push(format!("size_hint-too-big:{}", hint(h)));
+        } else {
+          let v: Vec<Val> = if dei && *op == Op::RevCollect { it.rev().collect() } else { it.collect() };
+          out.push(list(&v));
+        }
+        return;
+      }
+      Op::Fold => {
+        let v = it.fold(Vec::new(), |mut v: Vec<String>, x| {
+          v.push(x);
+          v
+        });
+        out.push(format!("fold[{}]", v.join(",")));
+        return;
+      }
+      Op::RFold => {
+        let push = |mut v: Vec<String>, x: Val| {
+          v.push(x);
+          v
+        };
+        let v = if dei { it.rfold(Vec::new(), push) } else { it.fold(Vec::new(), push) };
+        out.push(format!("rfold[{}]", v.join(",")));
+        return;
+      }
+      Op::ForEach => {
+        let mut v: Vec<String> = Vec::new();
+        it.for_each(|x| v.push(x));
+        out.push(format!("for_each[{}]", v.join(",")));
+        return;
+      }
+      Op::MaxBy => {
+        // a constant comparison: the result depends on the order of delivery only (the last element)
+        out.push(opt(it.max_by(|_, _| std::cmp::Ordering::Less)));
+        return;
+      }
+      Op::MinBy => {
+        out.push(opt(it.min_by(|_, _| std::cmp::Ordering::Less)));
+        return;
+      }
     }
-  };
+  }
 }
-
-make_exec!(exec_full, (DoubleEndedIterator + ExactSizeIterator), dei = yes, esi = yes, sized_adaptors = full, plain_adaptors = full);
-make_exec!(exec_dei, (DoubleEndedIterator), dei = yes, esi = no, sized_adaptors = fwd, plain_adaptors = dei);
-make_exec!(exec_fwd, (Iterator), dei = no, esi = no, sized_adaptors = fwd, plain_adaptors = fwd);
 
 // ------------------------------------------------------------------------------------------------
 // program generation
@@ -880,9 +939,9 @@ fn steps_case(ctx: &mut Ctx, a: f64, b: f64, n: usize, random: usize, boundary: 
   let pts: Vec<f64> = (0..n).map(|i| s.value(i)).collect();
   let head = format!("a={:e} b={:e} n={}", a, b, n);
   for prog in progs_for(ctx, n, random, boundary) {
-    let got = run_real(hang("C14.iterprog", "steps", &head, &prog), |o| exec_full::<_, L2>(Meter::new(Steps(a, b, n).into_iter(), n), &prog, o));
+    let got = run_real(hang("C14.iterprog", "steps", &head, &prog), |o| exec(Dyn::full(Steps(a, b, n).into_iter(), n), Cap::Full, &prog, o));
     let mut want = Vec::new();
-    exec_full::<_, L2>(pts.clone().into_iter(), &prog, &mut want);
+    exec(Dyn::full(pts.clone().into_iter(), UNMETERED), Cap::Full, &prog, &mut want);
     emit(ctx, "C14.iterprog", "steps", &head, &prog, &got, &want, &[a.abs().max(b.abs())]);
   }
   // primitive programs against the Lean state machine
@@ -962,9 +1021,9 @@ fn piece1_case(ctx: &mut Ctx, a: f64, b: f64, n: usize, random: usize) {
     }
   };
   for prog in progs_for(ctx, m, random, m <= 3) {
-    let got = run_real(hang("C15.iterprog", "producer1", &head, &prog), |o| exec_full::<_, L2>(Meter::new(Producer::into_iter(piece1(Steps(a, b, n), &path)), m), &prog, o));
+    let got = run_real(hang("C15.iterprog", "producer1", &head, &prog), |o| exec(Dyn::full(Producer::into_iter(piece1(Steps(a, b, n), &path)), m), Cap::Full, &prog, o));
     let mut want = Vec::new();
-    exec_full::<_, L2>(pts.clone().into_iter(), &prog, &mut want);
+    exec(Dyn::full(pts.clone().into_iter(), UNMETERED), Cap::Full, &prog, &mut want);
     emit(ctx, "C15.iterprog", "producer1", &head, &prog, &got, &want, &[a.abs().max(b.abs())]);
   }
 }
@@ -1005,12 +1064,12 @@ fn steps2d_case(ctx: &mut Ctx, g: G, random: usize, boundary: bool) {
   let head = ghead(&g);
   for (j, prog) in progs_for(ctx, n, random, boundary).into_iter().enumerate() {
     let got = if j % 2 == 0 {
-      run_real(hang("C14.iterprog", "steps2d", &head, &prog), |o| exec_full::<_, L2>(Meter::new(Steps2D(g.0, g.1).into_iter(), n), &prog, o))
+      run_real(hang("C14.iterprog", "steps2d", &head, &prog), |o| exec(Dyn::full(Steps2D(g.0, g.1).into_iter(), n), Cap::Full, &prog, o))
     } else {
-      run_real(hang("C14.iterprog", "steps2d", &head, &prog), |o| exec_full::<_, L2>(Meter::new(Iterator2D::new(Steps2D::new(g.0, g.1)), n), &prog, o))
+      run_real(hang("C14.iterprog", "steps2d", &head, &prog), |o| exec(Dyn::full(Iterator2D::new(Steps2D::new(g.0, g.1)), n), Cap::Full, &prog, o))
     };
     let mut want = Vec::new();
-    exec_full::<_, L2>(pts.clone().into_iter(), &prog, &mut want);
+    exec(Dyn::full(pts.clone().into_iter(), UNMETERED), Cap::Full, &prog, &mut want);
     emit(ctx, "C14.iterprog", "steps2d", &head, &prog, &got, &want, &gscales(&g));
   }
   // Iterator2D is Clone: cycle() restarts from a clone of the (partly consumed) iterator
@@ -1064,9 +1123,9 @@ fn partition_case(ctx: &mut Ctx, g: G, random: usize, boundary: bool) {
   let pts: Vec<(f64, f64)> = (lo..hi).map(|i| s.value(i)).collect();
   let head = format!("{} lo={} hi={}", ghead(&g), lo, hi);
   for prog in progs_for(ctx, m, random, boundary && m <= 4) {
-    let got = run_real(hang("C15.iterprog", "partition", &head, &prog), |o| exec_full::<_, L2>(Meter::new(Iterator2D::new_partition(Steps2D(g.0, g.1), lo, hi), m), &prog, o));
+    let got = run_real(hang("C15.iterprog", "partition", &head, &prog), |o| exec(Dyn::full(Iterator2D::new_partition(Steps2D(g.0, g.1), lo, hi), m), Cap::Full, &prog, o));
     let mut want = Vec::new();
-    exec_full::<_, L2>(pts.clone().into_iter(), &prog, &mut want);
+    exec(Dyn::full(pts.clone().into_iter(), UNMETERED), Cap::Full, &prog, &mut want);
     emit(ctx, "C15.iterprog", "partition", &head, &prog, &got, &want, &gscales(&g));
   }
   for _ in 0..(random / 4).max(1) {
@@ -1087,9 +1146,9 @@ fn partition_case(ctx: &mut Ctx, g: G, random: usize, boundary: bool) {
     Producer::into_iter(p)
   };
   for prog in progs_for(ctx, phi - plo, random, false) {
-    let got = run_real(hang("C15.iterprog", "producer2", &phead, &prog), |o| exec_full::<_, L2>(Meter::new(piece(&path), phi - plo), &prog, o));
+    let got = run_real(hang("C15.iterprog", "producer2", &phead, &prog), |o| exec(Dyn::full(piece(&path), phi - plo), Cap::Full, &prog, o));
     let mut want = Vec::new();
-    exec_full::<_, L2>(ppts.clone().into_iter(), &prog, &mut want);
+    exec(Dyn::full(ppts.clone().into_iter(), UNMETERED), Cap::Full, &prog, &mut want);
     emit(ctx, "C15.iterprog", "producer2", &phead, &prog, &got, &want, &gscales(&g));
   }
 }
@@ -1116,15 +1175,15 @@ fn combo_case(ctx: &mut Ctx, random: usize) {
   let head = format!("a={:e} b={:e} n={} c={:e} d={:e} m={} pre={}/{}/{}/{}", a, b, n, c, d, m, pre[0], pre[1], pre[2], pre[3]);
   for _ in 0..random {
     let prog = gen_prog(&mut ctx.rng, n + m);
-    let got = run_real(hang("C14.iterprog", "chain", &head, &prog), |o| exec_dei::<_, L1>(eat(Meter::new(Steps(a, b, n).into_iter(), n), pre[0], pre[1]).chain(eat(Meter::new(Steps(c, d, m).into_iter(), m), pre[2], pre[3])), &prog, o));
+    let got = run_real(hang("C14.iterprog", "chain", &head, &prog), |o| exec(Dyn::dei(eat(Dyn::full(Steps(a, b, n).into_iter(), n), pre[0], pre[1]).chain(eat(Dyn::full(Steps(c, d, m).into_iter(), m), pre[2], pre[3])), UNMETERED), Cap::Dei, &prog, o));
     let mut want = Vec::new();
-    exec_dei::<_, L1>(eat(pa.clone().into_iter(), pre[0], pre[1]).chain(eat(pb.clone().into_iter(), pre[2], pre[3])), &prog, &mut want);
+    exec(Dyn::dei(eat(Dyn::full(pa.clone().into_iter(), UNMETERED), pre[0], pre[1]).chain(eat(Dyn::full(pb.clone().into_iter(), UNMETERED), pre[2], pre[3])), UNMETERED), Cap::Dei, &prog, &mut want);
     emit(ctx, "C14.iterprog", "chain", &head, &prog, &got, &want, &[sab.max(scd)]);
 
     let prog = gen_prog(&mut ctx.rng, n.min(m));
-    let got = run_real(hang("C14.iterprog", "zip", &head, &prog), |o| exec_full::<_, L1>(eat(Meter::new(Steps(a, b, n).into_iter(), n), pre[0], pre[1]).zip(eat(Meter::new(Steps(c, d, m).into_iter(), m), pre[2], pre[3])), &prog, o));
+    let got = run_real(hang("C14.iterprog", "zip", &head, &prog), |o| exec(Dyn::full(eat(Dyn::full(Steps(a, b, n).into_iter(), n), pre[0], pre[1]).zip(eat(Dyn::full(Steps(c, d, m).into_iter(), m), pre[2], pre[3])), UNMETERED), Cap::Full, &prog, o));
     let mut want = Vec::new();
-    exec_full::<_, L1>(eat(pa.clone().into_iter(), pre[0], pre[1]).zip(eat(pb.clone().into_iter(), pre[2], pre[3])), &prog, &mut want);
+    exec(Dyn::full(eat(Dyn::full(pa.clone().into_iter(), UNMETERED), pre[0], pre[1]).zip(eat(Dyn::full(pb.clone().into_iter(), UNMETERED), pre[2], pre[3])), UNMETERED), Cap::Full, &prog, &mut want);
     emit(ctx, "C14.iterprog", "zip", &head, &prog, &got, &want, &[sab, scd]);
   }
   // a 1-D range zipped with a 2-D range (a row of the grid against its abscissae)
@@ -1133,9 +1192,9 @@ fn combo_case(ctx: &mut Ctx, random: usize) {
   let p1: Vec<f64> = (0..n.max(1)).map(|i| Steps(a, b, n.max(1)).value(i)).collect();
   for _ in 0..random {
     let prog = gen_prog(&mut ctx.rng, n.max(1));
-    let got = run_real(hang("C14.iterprog", "zip2d", &ghead(&g), &prog), |o| exec_full::<_, L1>(Meter::new(Steps2D(g.0, g.1).into_iter(), p2.len()).zip(Meter::new(Steps(a, b, n.max(1)).into_iter(), n.max(1))), &prog, o));
+    let got = run_real(hang("C14.iterprog", "zip2d", &ghead(&g), &prog), |o| exec(Dyn::full(Dyn::full(Steps2D(g.0, g.1).into_iter(), p2.len()).zip(Dyn::full(Steps(a, b, n.max(1)).into_iter(), n.max(1))), UNMETERED), Cap::Full, &prog, o));
     let mut want = Vec::new();
-    exec_full::<_, L1>(p2.clone().into_iter().zip(p1.clone().into_iter()), &prog, &mut want);
+    exec(Dyn::full(Dyn::full(p2.clone().into_iter(), UNMETERED).zip(Dyn::full(p1.clone().into_iter(), UNMETERED)), UNMETERED), Cap::Full, &prog, &mut want);
     emit(ctx, "C14.iterprog", "zip2d", &format!("{} with a={:e} b={:e} n={}", ghead(&g), a, b, n.max(1)), &prog, &got, &want, &[sab, scd, sab]);
   }
 }
@@ -1170,14 +1229,14 @@ fn si_case(ctx: &mut Ctx, random: usize) {
   }
   for (j, prog) in progs.iter().enumerate() {
     let (src, got, pts) = match j % 5 {
-      0 => ("si-frequency", run_real(hang("C14.iterprog", "si-frequency", &head, prog), |o| exec_fwd::<_, L1>(Meter::new(fs.into_signal_idler_iterator(), n), prog, o)), &e_fs),
-      1 => ("si-wavelength", run_real(hang("C14.iterprog", "si-wavelength", &head, prog), |o| exec_fwd::<_, L1>(Meter::new(ws.into_signal_idler_iterator(), n), prog, o)), &e_ws),
-      2 => ("si-sumdiff", run_real(hang("C14.iterprog", "si-sumdiff", &head, prog), |o| exec_fwd::<_, L1>(Meter::new(sd.into_signal_idler_iterator(), n), prog, o)), &e_sd),
-      3 => ("si-flat-wavelength", run_real(hang("C14.iterprog", "si-flat-wavelength", &head, prog), |o| exec_fwd::<_, L1>(Meter::new(SignalIdlerWavelengthArray(wl_flat.clone()).into_signal_idler_iterator(), n), prog, o)), &e_ws),
-      _ => ("si-flat-frequency", run_real(hang("C14.iterprog", "si-flat-frequency", &head, prog), |o| exec_fwd::<_, L1>(Meter::new(SignalIdlerFrequencyArray(fr_flat.clone()).into_signal_idler_iterator(), n), prog, o)), &e_fs),
+      0 => ("si-frequency", run_real(hang("C14.iterprog", "si-frequency", &head, prog), |o| exec(Dyn::fwd(fs.into_signal_idler_iterator(), n), Cap::Fwd, prog, o)), &e_fs),
+      1 => ("si-wavelength", run_real(hang("C14.iterprog", "si-wavelength", &head, prog), |o| exec(Dyn::fwd(ws.into_signal_idler_iterator(), n), Cap::Fwd, prog, o)), &e_ws),
+      2 => ("si-sumdiff", run_real(hang("C14.iterprog", "si-sumdiff", &head, prog), |o| exec(Dyn::fwd(sd.into_signal_idler_iterator(), n), Cap::Fwd, prog, o)), &e_sd),
+      3 => ("si-flat-wavelength", run_real(hang("C14.iterprog", "si-flat-wavelength", &head, prog), |o| exec(Dyn::fwd(SignalIdlerWavelengthArray(wl_flat.clone()).into_signal_idler_iterator(), n), Cap::Fwd, prog, o)), &e_ws),
+      _ => ("si-flat-frequency", run_real(hang("C14.iterprog", "si-flat-frequency", &head, prog), |o| exec(Dyn::fwd(SignalIdlerFrequencyArray(fr_flat.clone()).into_signal_idler_iterator(), n), Cap::Fwd, prog, o)), &e_fs),
     };
     let mut want = Vec::new();
-    exec_fwd::<_, L1>(pts.clone().into_iter(), prog, &mut want);
+    exec(Dyn::fwd(pts.clone().into_iter(), UNMETERED), Cap::Fwd, prog, &mut want);
     let sc = |f: &dyn Fn(&(Frequency, Frequency)) -> Frequency| pts.iter().map(|p| (*(f(p) / (RAD / S))).abs()).fold(0.0f64, f64::max);
     emit(ctx, "C14.iterprog", src, &head, prog, &got, &want, &[sc(&|p| p.0), sc(&|p| p.1)]);
   }
